@@ -805,7 +805,7 @@ def bounded(b):
     quick = b.tier != "thorough"
     if quick:
         depth2 = rng.sample(depth2, 250)
-    nrand = 120 if quick else 1500
+    nrand = 120 if quick else 600
     b.rules.append("operation histories over 4 objects (Note, Rest, Measure, GraceNote = subclass of Note), times {0,1,2,5}, "
                    "add by start/end/both incl. equal start and end, remove start/end/both, set_quarter_duration, get_or_add_point, "
                    "then every query; all %d single operations, %d histories of length 2 (%s), %d seeded random histories of length 3..7; "
@@ -834,7 +834,7 @@ def bounded(b):
         a1, a2 = cls_letter + "1", cls_letter + "2"
         _run_history(b, [("add", a1, 0, None), ("add", a2, 0, None), ("add", a1, None, 2), ("rm", a1, "both"), ("rm", a2, "both")], every_step=True)
         _run_history(b, [("add", a1, 0, 2), ("add", a2, 0, 2), ("rm", a2, "start"), ("add", a2, 2, None), ("rm", a1, "both")], every_step=True)
-    for _ in range(60 if quick else 600):
+    for _ in range(60 if quick else 300):
         k = rng2.randint(3, 8)
         _run_history(b, [rng2.choice(U2) for _ in range(k)], every_step=not quick)
     _point_primitives(b)
